@@ -61,7 +61,9 @@ func runSeq(via, initHex, ops string) string {
 			var res string
 			switch {
 			case len(f) == 2 && (f[0] == "wT" || f[0] == "wB"):
-				n, err := rw.Write(lib.UnHex(f[1]))
+				wp := lib.UnHex(f[1])
+				n, err := rw.Write(wp)
+				scribble(wp) // the caller reuses its slice: what was written must not change with it
 				res = fmt.Sprintf("n=%d,err=%s", n, errStr(err))
 			case len(f) == 2 && (f[0] == "rT" || f[0] == "rB"):
 				k, e := strconv.Atoi(f[1])
@@ -140,7 +142,9 @@ func runDseq(kind, initHex, ops string) string {
 			var res string
 			switch {
 			case len(f) == 2 && (f[0] == "wT" || f[0] == "wB"):
-				n, err := h.Write(lib.UnHex(f[1]))
+				wp := lib.UnHex(f[1])
+				n, err := h.Write(wp)
+				scribble(wp)
 				res = fmt.Sprintf("n=%d,err=%s", n, errStr(err))
 			case len(f) == 2 && (f[0] == "rT" || f[0] == "rB"):
 				k, e := strconv.Atoi(f[1])
@@ -575,7 +579,7 @@ func genCases(o *lib.Opts) {
 	// 2b. histories in which the underlying buffer has grown large (one write beyond 64 KiB, 1 MiB in the
 	// thorough tier) before Close / Reset / further use: whatever the transport does with a big buffer, it must
 	// still be the buffer (seeded change C19_w6_1: Close swapped a grown buffer for a 4096-byte zero-filled one)
-	hugeSizes := []int{65537, 70000, 131073}
+	hugeSizes := []int{16383, 16384, 20000, 32769, 65537, 70000, 131073}
 	if o.Tier == "thorough" {
 		hugeSizes = append(hugeSizes, 1<<20+1)
 	}
@@ -674,6 +678,14 @@ func genCases(o *lib.Opts) {
 func replay(lines [][]string) {
 	for _, f := range lines {
 		emit(f...)
+	}
+}
+
+// scribble overwrites a slice the harness passed to Write: a transport that kept the caller's memory instead of
+// copying it (bytes.Buffer.Write copies) shows the scribbled bytes on the next read
+func scribble(p []byte) {
+	for i := range p {
+		p[i] ^= 0xa5
 	}
 }
 
